@@ -9,7 +9,6 @@ import (
 	"regexp"
 	"sort"
 	"strings"
-	"sync"
 	"time"
 )
 
@@ -187,7 +186,7 @@ func cmdCheck(args []string) {
 		}
 		if !inBase && len(baseline) > 0 && !o.AutoSite {
 			// new, undecided: not on the shipped list and not an auto-discovered site family
-			if o.Status != "sat" {
+			if o.Status != "sat" && !o.WitnessConfirmed {
 				fmt.Printf("note: new undecided obligation %s (%s) — not claimed\n", o.Name, o.Status)
 				continue
 			}
@@ -396,28 +395,27 @@ func runProperty(repo, mirror, id string, timeout int, tier string) *checkResult
 			res.funcs = append(res.funcs, g.Label)
 		}
 	}
-	var wg sync.WaitGroup
-	sem := make(chan struct{}, 6)
+	var tasks []func()
+	seenGen := map[*Gen]bool{}
+	var gens []*Gen
 	for _, j := range jobs {
-		j := j
 		res.all = append(res.all, j.o)
-		wg.Add(1)
-		sem <- struct{}{}
-		go func() {
-			defer wg.Done()
-			defer func() { <-sem }()
-			t := timeout
-			if j.g.FC != nil && j.g.FC.Timeout > 0 && tier != "thorough" {
-				t = j.g.FC.Timeout
-			}
-			if j.o.Pre != "" {
-				j.o.Status, j.o.Solver = j.o.Pre, "dataflow"
-				return
-			}
-			Discharge(j.g, j.o, workDir, t)
-		}()
+		if !seenGen[j.g] {
+			seenGen[j.g] = true
+			gens = append(gens, j.g)
+		}
 	}
-	wg.Wait()
+	for _, g := range gens {
+		t := timeout
+		if g.FC != nil && g.FC.Timeout > 0 && tier != "thorough" {
+			t = g.FC.Timeout
+		}
+		tasks = append(tasks, g.Tasks(workDir, t)...)
+	}
+	RunTasks(tasks, 6)
+	for _, g := range gens {
+		g.Finalize()
+	}
 	sort.Strings(res.funcs)
 	return res
 }
@@ -500,9 +498,14 @@ func writeReplay(repo, id, name, reason string, o *Oblig) replayResult {
 		}
 		if o.Witness != "" {
 			rec["witness"] = o.Witness
+			rec["replay_output"] = o.ReplayOut
+			rec["replay_confirmed"] = o.WitnessConfirmed
 			if o.WitnessConfirmed {
 				confirmed = true
 			}
+		}
+		if o.FailedSub != "" {
+			rec["failed_subgoal"] = o.FailedSub
 		}
 	}
 	data, _ := json.MarshalIndent(rec, "", " ")
